@@ -205,7 +205,7 @@ def run_conc(prop, tier, seed, jobs_spec, own_guards, mc, builds=("rel", "dbg"),
             if sig in seen:
                 continue
             seen.add(sig)
-            if prop == "C09" or (prop == "C13" and name == "NoPurgeAfterAbandon"):
+            if prop == "C09" or (prop == "C13" and name in ("NoPurgeAfterAbandon", "WonSegmentsSettled", "MarkNotTwice", "FreedNotAbandoned")):
                 keep = os.path.join(vlib.keepdir(prop), os.path.basename(p))
                 shutil.copyfile(p, keep)
                 V.violation(sig, "%s:%d" % (keep, line), "abandonment protocol guard %s failed (%s)" % (name, detail))
